@@ -7,6 +7,7 @@ import (
 	"flag"
 
 	"github.com/jawher/mow.cli/internal/lexer"
+	"github.com/jawher/mow.cli/internal/parser"
 )
 
 func init() {
@@ -145,6 +146,20 @@ func H_doinit_total() {
 	vObserve("pos", pe.Pos)
 	vAssert(pe.Pos >= 0 && pe.Pos <= len(spec), "spec error position outside the string")
 	vAssert(pe.Pos <= len(pe.Input), "spec error position outside the string it reports")
+	vAssert(pe.Input == spec, "C08: the spec error does not report the spec string as the user wrote it")
+	// the position is the one the lexer / parser report for this very string (their own
+	// positions are checked against the reference by H_lex_ref and H_parse_ref)
+	if toks, lerr := lexer.Tokenize(spec); lerr != nil {
+		vAssert(pe.Pos == lerr.(*lexer.ParseError).Pos, "C08: Run reports a lexical error at another position than the lexer")
+	} else {
+		target := app.Cmd
+		if onSub {
+			target = app.commands[0]
+		}
+		_, perr := parser.Parse(toks, parser.Params{Spec: spec, Options: target.options, OptionsIdx: target.optionsIdx, Args: target.args, ArgsIdx: target.argsIdx})
+		vAssert(perr != nil, "C08: Run rejects a spec its own parser accepts")
+		vAssert(pe.Pos == perr.(*lexer.ParseError).Pos, "C08: Run reports a syntax error at another position than the parser")
+	}
 	vAssert(hooks == 0, "an Action or interceptor ran although the spec was rejected")
 	_ = pe.Error()
 }
